@@ -110,6 +110,173 @@ pub fn raw_bytes(p: &Planted, m: &RawMsg) -> Vec<u8> {
     wire::encode(p.a_local_sid, 0, m.ctr, None, None, &proto, Some(&p.key_ba), p.nonce_node(p.b))
 }
 
+thread_local! {
+    /// The network of the run in progress (for policies which answer datagrams themselves)
+    static CURRENT_NET: RefCell<Option<Net>> = const { RefCell::new(None) };
+}
+
+/// One answer of the raw peer: (time, planted session, acknowledged counter, datagram id,
+/// optional header fields used)
+#[derive(Clone, Debug)]
+pub struct RawReply {
+    pub time: u64,
+    pub planted: usize,
+    pub acked: u32,
+    pub bytes: Vec<u8>,
+    pub vendor: Option<u16>,
+    pub with_ack: bool,
+    pub standalone: bool,
+}
+
+/// Network policy wrapper which plays the raw peer's part in exchanges the stacks open with it:
+/// a reliable message addressed to the raw peer is answered - by a stand-alone acknowledgement, or
+/// by the next message of the exchange's script carrying the acknowledgement, with or without a
+/// protocol vendor id (every combination of the optional protocol header fields).
+pub struct RawResponder {
+    pub inner: Box<dyn Policy>,
+    pub planted: Vec<Planted>,
+    pub seed: u64,
+    pub latency_us: u64,
+    /// Next counter per planted session
+    pub ctrs: BTreeMap<usize, u32>,
+    /// Answers already given: (planted, counter answered) -> datagrams
+    pub given: BTreeMap<(usize, u32), Vec<Vec<u8>>>,
+    pub app_log: Rc<RefCell<Vec<AppEv>>>,
+    pub replies: Rc<RefCell<Vec<RawReply>>>,
+    pub fired: Rc<RefCell<BTreeMap<&'static str, u64>>>,
+}
+
+impl RawResponder {
+    fn answer(&mut self, rec: &TapSend) {
+        let Some(plain) = wire::decode_plain(&rec.bytes) else {
+            return;
+        };
+        let Some((idx, p)) = self
+            .planted
+            .iter()
+            .enumerate()
+            .find(|(_, p)| p.b == RAW_NODE && p.a == rec.src && p.b_local_sid == plain.sess_id)
+        else {
+            return;
+        };
+        let p = p.clone();
+        let Some(proto) = wire::decode_proto(&rec.bytes, &plain, Some(&p.key_ab), p.nonce_node(p.a)) else {
+            return;
+        };
+        if !proto.is_reliable() || proto.is_standalone_ack() {
+            return;
+        }
+        let dst = net::node_addr(p.a);
+        let lat = self.latency_us;
+        let inject = |bytes: Vec<u8>| {
+            let net = CURRENT_NET.with(|c| c.borrow().clone());
+            if let Some(net) = net {
+                // (outside of the send call which is consulting this policy)
+                kernel::after(0, move || {
+                    net.inject(RAW_NODE, dst, &bytes, lat);
+                });
+            }
+        };
+        // A retransmission gets the same answer again
+        if let Some(old) = self.given.get(&(idx, plain.ctr)) {
+            for b in old.clone() {
+                inject(b);
+            }
+            *self.fired.borrow_mut().entry("raw_peer_answer_repeated").or_default() += 1;
+            return;
+        }
+        let mut next_ctr = |me: &mut Self| {
+            let c = me.ctrs.entry(idx).or_insert(0x0100_0000 + (me.seed as u32 & 0x00ff_ffff));
+            *c += 1;
+            *c
+        };
+        let mk = |ctr: u32, proto_id: u16, opcode: u8, ack: Option<u32>, vendor: Option<u16>, payload: Vec<u8>| {
+            raw_bytes(
+                &p,
+                &RawMsg {
+                    at_us: 0,
+                    planted: idx,
+                    ctr,
+                    exch_id: proto.exch_id,
+                    initiator: !proto.is_initiator(),
+                    reliable: false,
+                    ack,
+                    vendor,
+                    proto_id,
+                    opcode,
+                    payload,
+                },
+            )
+        };
+        // Does the exchange's script want a message from us next?
+        let next = parse_payload(&proto.payload).and_then(|pp| {
+            let seq = pp.seq as usize + 1;
+            let st = pp.script.get(seq)?;
+            if st.both() || st.by_responder() == proto.is_initiator() {
+                let wl = Workload { id: pp.wl, planted: idx, start_delay_ms: 0, script: pp.script.clone(), final_ack: pp.final_ack, group: false };
+                Some((wl, seq))
+            } else {
+                None
+            }
+        });
+        let mut out: Vec<Vec<u8>> = Vec::new();
+        let mut recs: Vec<RawReply> = Vec::new();
+        let now = kernel::now();
+        match next {
+            Some((wl, seq)) if !wl.script[seq].both() => {
+                let payload = build_payload(&wl, seq, self.seed);
+                self.app_log.borrow_mut().push(AppEv {
+                    time: now,
+                    local_time: now,
+                    node: RAW_NODE,
+                    incarnation: 1,
+                    wl: wl.id,
+                    initiator: !proto.is_initiator(),
+                    kind: AppKind::SendStart { seq: seq as u8, reliable: false, hash: hash_bytes(&payload) },
+                });
+                // Optional header fields: A, V|A, or V alone next to a stand-alone acknowledgement
+                let shape = tape::choose(3);
+                let vendor = if shape == 0 { None } else { Some([0xfff1u16, 0x0001, 0x1234, 0xffff][tape::choose(4) as usize]) };
+                if shape == 2 {
+                    let c = next_ctr(self);
+                    out.push(mk(c, 0, 0x10, Some(plain.ctr), None, vec![]));
+                    recs.push(RawReply { time: now, planted: idx, acked: plain.ctr, bytes: Vec::new(), vendor: None, with_ack: true, standalone: true });
+                    let c = next_ctr(self);
+                    out.push(mk(c, PROTO_APP, OP_APP, None, vendor, payload));
+                    recs.push(RawReply { time: now, planted: idx, acked: plain.ctr, bytes: Vec::new(), vendor, with_ack: false, standalone: false });
+                } else {
+                    let c = next_ctr(self);
+                    out.push(mk(c, PROTO_APP, OP_APP, Some(plain.ctr), vendor, payload));
+                    recs.push(RawReply { time: now, planted: idx, acked: plain.ctr, bytes: Vec::new(), vendor, with_ack: true, standalone: false });
+                }
+            }
+            _ => {
+                let c = next_ctr(self);
+                out.push(mk(c, 0, 0x10, Some(plain.ctr), None, vec![]));
+                recs.push(RawReply { time: now, planted: idx, acked: plain.ctr, bytes: Vec::new(), vendor: None, with_ack: true, standalone: true });
+            }
+        }
+        for (b, mut r) in out.iter().cloned().zip(recs) {
+            r.bytes = b.clone();
+            inject(b);
+            self.replies.borrow_mut().push(r);
+        }
+        *self.fired.borrow_mut().entry("raw_peer_answers").or_default() += 1;
+        self.given.insert((idx, plain.ctr), out);
+    }
+}
+
+impl Policy for RawResponder {
+    fn decide(&mut self, rec: &TapSend) -> Vec<Fate> {
+        if net::addr_node(&rec.dst) == Some(RAW_NODE) {
+            self.answer(rec);
+            // Nobody listens at the raw peer's address: the datagram ends here
+            return Vec::new();
+        }
+        self.inner.decide(rec)
+    }
+}
+
 #[derive(Clone, Copy, Debug)]
 pub struct MrpKnobs {
     pub faults: bool,
@@ -638,6 +805,7 @@ pub fn drive_with(
     let n_nodes = cfg.workloads.len();
     let fired = Rc::new(RefCell::new(BTreeMap::new()));
     let net = Net::new(policy(fired.clone()));
+    CURRENT_NET.with(|c| *c.borrow_mut() = Some(net.clone()));
     let log: AppLog = Rc::new(RefCell::new(Vec::new()));
     let events: Rc<RefCell<Vec<XEvent>>> = Rc::new(RefCell::new(Vec::new()));
     let incs: Rc<RefCell<Vec<u32>>> = Rc::new(RefCell::new(vec![0; n_nodes]));
@@ -821,6 +989,7 @@ pub fn drive_with(
     exec.shutdown();
     drop(exec);
     rs_matter::verif::set_sink(None);
+    CURRENT_NET.with(|c| *c.borrow_mut() = None);
 
     let tap = net.take_tap();
     let dgrams = index_tap(&cfg.planted, &tap);
